@@ -116,7 +116,15 @@ func c09Check(ci any, o *core.Obs) {
 	}
 	sort.Float64s(ts)
 	var pieces []*canvas.Path
-	tsArg := append([]float64(nil), ts...)
+	// the positions are passed in the order they were generated in (arbitrary; SplitAt sorts a copy),
+	// in a quarter of the cases sorted
+	tsArg := make([]float64, len(c.Fracs))
+	for i, f := range c.Fracs {
+		tsArg[i] = f * L
+	}
+	if rs := caseRng(c, "C09order"); rs.Chance(0.25) {
+		sort.Float64s(tsArg)
+	}
 	if o.Call("Path.SplitAt", func() { pieces = pathFrom(c.P).SplitAt(tsArg...) }) {
 		// distinct interior cut positions
 		var cuts []float64
@@ -160,8 +168,9 @@ func c09Check(ci any, o *core.Obs) {
 			// number of pieces and cut positions (single sub-path inputs: n cuts give n+1 pieces)
 			endCut := false
 			for _, t := range ts {
-				if t <= 0 || t >= L {
-					endCut = true // a cut at an end may or may not leave a (tiny) piece: count not defined
+				if t < 0 || t >= L {
+					endCut = true // a cut at the far end may or may not leave a (tiny) piece: count not defined;
+					// a cut at exactly 0 makes no piece (the positions are sorted and a leading 0 is dropped)
 				}
 			}
 			if len(src) == 1 && !o.Failed() && !endCut {
